@@ -37,6 +37,7 @@ ROLE_STEMS = {'lat': ('lat',), 'lon': ('lon', 'lng'), 'depth': ('dep',), 'mag': 
 SLOTS = ['id', 'time', 'lat', 'lon', 'depth', 'mag']
 ZMAP = {'Longitude': 0, 'Latitude': 1, 'DecimalYear': 2, 'Month': 3, 'Day': 4, 'Magnitude': 5, 'Depth': 6, 'Hour': 7, 'Minute': 8, 'Second': 9}
 HORUS = {'year': 0, 'month': 1, 'day': 2, 'hour': 3, 'minute': 4, 'second': 5, 'lat': 6, 'lon': 7, 'depth': 8, 'Mw': 9}
+ZMAP_COLS = {0: 'lon', 1: 'lat', 2: 'year', 3: 'month', 4: 'day', 5: 'mag', 6: 'depth', 7: 'hour', 8: 'minute', 9: 'second'}
 CSEP_COLS = {0: 'lon', 1: 'lat', 2: 'mag', 3: 'time', 4: 'depth', 5: 'catalog_id', 6: 'id'}
 JMA_COLS = {0: 'time', 1: 'lon', 2: 'lat', 3: 'depth', 4: 'mag'}
 
@@ -98,6 +99,22 @@ def rule_dispatch(ck):
     # the loader is used
     o = ck.ob('C19-D1.use', f, 'catalog_class.load_catalog(filename=filename, loader=loader)', f.node)
     ok = any(isinstance(n, ast.Call) and isinstance(n.func, ast.Attribute) and n.func.attr == 'load_catalog' and u(kw(n, 'loader') or ast.Constant(0)) == 'loader' for n in all_nodes(f))
+    if not ok:
+        # `loader=default if loader is None else loader`: the caller's reader, else the one the table gives for the type - the same choice
+        # written as an expression
+        for n in all_nodes(f):
+            if isinstance(n, ast.Call) and isinstance(n.func, ast.Attribute) and n.func.attr == 'load_catalog' and isinstance(kw(n, 'loader'), ast.IfExp):
+                ie = kw(n, 'loader')
+                from .common import is_none_test
+                pol = is_none_test(ie.test, 'loader')
+                mine, dflt = (ie.orelse, ie.body) if pol is True else (ie.body, ie.orelse)
+                try:
+                    d_txt = u(Expander(P, f).expand(dflt))
+                except Inconclusive:
+                    d_txt = u(dflt)
+                if isinstance(mine, ast.Name) and mine.id == 'loader' and ('[type]' in d_txt or '.get(type' in d_txt) \
+                        and isinstance(ie.test, ast.Compare) and u(ie.test.left) == 'loader':
+                    ok = True
     (o.ok() if ok else o.fail('the selected reader is not handed to load_catalog'))
     g = P.func('csep.core.catalogs.CSEPCatalog.load_catalog')
     o = ck.ob('C19-D1.ctor', g, 'cls(data=event_list, ...)', g.node)
@@ -191,6 +208,10 @@ def rule_slots(ck):
                 cols = CSEP_COLS
             elif name == 'jma_csv':
                 cols = JMA_COLS
+            if name == 'zmap_ascii' and not _zmap_enums(P, f) and any(
+                    isinstance(x, ast.Subscript) and isinstance(x.value, ast.Name) and isinstance(const_value(x.slice), int) for x in ast.walk(ee)):
+                # the reader subscripts its rows with plain column numbers: read them against the ZMAP layout
+                cols = ZMAP_COLS
             if cols is not None:
                 idx = {const_value(x.slice) for x in ast.walk(ee) if isinstance(x, ast.Subscript) and isinstance(x.value, ast.Name) and x.value.id == 'line'}
                 got = {cols.get(k, '?') for k in idx}
@@ -209,7 +230,9 @@ def rule_slots(ck):
     z = P.func(R + 'zmap_ascii')
     enums = _zmap_enums(P, z)
     o = ck.ob('C19-D2.zmaptable', z, 'ColumnIndex', enums[0].node if enums else z.node)
-    if len(enums) != 1:
+    if not enums and any(isinstance(n, ast.Subscript) and isinstance(n.value, ast.Name) and isinstance(const_value(n.slice), int) for n in all_nodes(z)):
+        o.ok('no enumeration: the rows are subscripted with column numbers, each read against the ZMAP layout where it is used')
+    elif len(enums) != 1:
         o.unknown('no ColumnIndex class')
     else:
         got = {}
@@ -241,6 +264,12 @@ def rule_slots(ck):
         got = []
         for a in dts[0].args:
             m = re.findall(r"(?:%s)\.(\w+)|\['(\w+)'\]" % '|'.join([c_.node.name for c_ in _zmap_enums(P, P.func(R + 'zmap_ascii'))] or ['ColumnIndex']), u(a))
+            if not m and name == 'zmap_ascii':
+                ks = [const_value(x.slice) for x in ast.walk(a) if isinstance(x, ast.Subscript) and isinstance(const_value(x.slice), int)]
+                inv = {v_: k_ for k_, v_ in ZMAP.items()}
+                if len(ks) == 1 and ks[0] in inv:
+                    got.append(inv[ks[0]])
+                    continue
             got.append((m[0][0] or m[0][1]) if m else '?')
         (o.ok('(year, month, day, hour, minute, second)') if got == fields else o.fail('datetime fields are %s, expected %s' % (got, fields)))
     # ndk hypocentre fields
@@ -363,6 +392,8 @@ def rule_kinds(ck):
                    'IntEnum or .value')
         else:
             o.ok('IntEnum members are integers')
+    else:
+        ck.ob('C19-D3.enum', z, 'rows subscripted with integers', z.node).ok('no enumeration in the reader: column numbers are plain integers')
     for name in ('zmap_ascii', 'ingv_horus'):
         f = P.func(R + name)
         for c in [c for c in calls_in(P, f, 'datetime.datetime') if len(c.args) >= 3]:
@@ -444,6 +475,7 @@ def rule_rollover(ck):
                 stages[m[0]] = (lim, n)
     o = ck.ob('C19-D4.horus', h, 'second>=60, minute>=60, hour>=24 carried before the datetime', h.node)
     probs = []
+    carried_by_count = []
     for fld, lim, unit in (('second', 60, 'minutes'), ('minute', 60, 'hours'), ('hour', 24, 'days')):
         if fld not in stages or stages[fld][0] != lim:
             probs.append('no carry for %s >= %s' % (fld, lim))
@@ -451,6 +483,17 @@ def rule_rollover(ck):
         body = stages[fld][1].body
         sub = any(isinstance(s, ast.AugAssign) and isinstance(s.op, ast.Sub) and fld in u(s.target) and const_value(s.value) == lim for s in body)
         add = any(isinstance(s, ast.AugAssign) and isinstance(s.op, ast.Add) and 'timedelta(%s=1)' % unit in u(s.value) for s in body)
+        if not add:
+            # the carry counted in a variable (0 for every record, 1 in this branch) that a single timedelta(<unit>=<variable>) adds
+            for s in body:
+                if isinstance(s, ast.Assign) and len(s.targets) == 1 and isinstance(s.targets[0], ast.Name) and const_value(s.value) == 1:
+                    cv = s.targets[0].id
+                    zero = [a_ for a_ in find_assignments(h, cv) if isinstance(a_, ast.Assign) and const_value(a_.value) == 0 and in_loop(a_, h.node) is not None]
+                    used = any(isinstance(c_, ast.Call) and (call_name(c_) or '').endswith('timedelta') and
+                               any(k_.arg == unit and isinstance(k_.value, ast.Name) and k_.value.id == cv for k_ in c_.keywords) for c_ in all_nodes(h))
+                    if zero and used and len(find_assignments(h, cv)) == 2:
+                        add = True
+                        carried_by_count.append(unit)
         if not (sub and add):
             probs.append('the %s carry does not subtract %s and add timedelta(%s=1)' % (fld, lim, unit))
         if dts and stages[fld][1].lineno > dts[0].lineno:
@@ -459,22 +502,33 @@ def rule_rollover(ck):
         probs.append('carries are not applied in the order second -> minute -> hour')
     if dts:
         st = stmt_of(dts[0])
-        if not (isinstance(st, ast.Assign) and isinstance(st.value, ast.BinOp) and isinstance(st.value.op, ast.Add) and u(st.value.right) == 'dt'):
+        plain = isinstance(st, ast.Assign) and isinstance(st.value, ast.BinOp) and isinstance(st.value.op, ast.Add) and u(st.value.right) == 'dt'
+        counted = isinstance(st, ast.Assign) and isinstance(st.value, ast.BinOp) and isinstance(st.value.op, ast.Add) and isinstance(st.value.right, ast.Call) \
+            and (call_name(st.value.right) or '').endswith('timedelta') and len(carried_by_count) == 3 \
+            and {k_.arg for k_ in st.value.right.keywords} == {'minutes', 'hours', 'days'} and not st.value.right.args
+        if not (plain or counted):
             probs.append('the carried timedelta is not added to the constructed datetime')
     (o.fail('; '.join(probs)) if probs else o.ok())
     p = P.func(R + '_parse_datetime_to_zmap')
     o = ck.ob('C19-D4.sixty', p, "':60.0' handled with a one-minute timedelta", p.node)
     probs = []
-    ifs = [n for n in all_nodes(p) if isinstance(n, ast.If) and "':60.0' in" in u(n.test)]
+    # the test may be named first: `add_minute = ':60.0' in time; if add_minute: time = time.replace(...)` - the flag then remembers itself
+    named = {a_.targets[0].id for a_ in all_nodes(p) if isinstance(a_, ast.Assign) and len(a_.targets) == 1 and isinstance(a_.targets[0], ast.Name)
+             and u(a_.value).startswith("':60.0' in") and len(find_assignments(p, a_.targets[0].id)) == 1}
+    ifs = [n for n in all_nodes(p) if isinstance(n, ast.If) and ("':60.0' in" in u(n.test) or (isinstance(n.test, ast.Name) and n.test.id in named))
+           and any(isinstance(s_, ast.Assign) and 'replace' in u(s_.value) for s_ in n.body)]
+    flag = 'add_minute'
     if len(ifs) != 1:
         probs.append("no test for ':60.0' in the time string")
     else:
         b = ifs[0].body
         if not any(isinstance(s, ast.Assign) and u(s.value) == "time.replace(':60.0', ':0.0')" for s in b):
             probs.append("':60.0' is not rewritten to ':0.0' before parsing")
-        if not any(isinstance(s, ast.Assign) and u(s.targets[0]) == 'add_minute' and const_value(s.value) is True for s in b):
+        if isinstance(ifs[0].test, ast.Name) and ifs[0].test.id in named:
+            flag = ifs[0].test.id
+        elif not any(isinstance(s, ast.Assign) and u(s.targets[0]) == 'add_minute' and const_value(s.value) is True for s in b):
             probs.append('the pending minute is not remembered')
-    adds = [n for n in all_nodes(p) if isinstance(n, ast.If) and u(n.test) == 'add_minute']
+    adds = [n for n in all_nodes(p) if isinstance(n, ast.If) and u(n.test) == flag and not (ifs and n is ifs[0])]
     if len(adds) != 1:
         probs.append('the pending minute is not applied')
     else:
@@ -708,6 +762,19 @@ def rule_subsecond(ck):
             miss = sorted(set(written) - read)
             (oo.fail('%s builds the origin time without %s of the dictionary returned by %s: that part of the encoded time is lost'
                      % (f.short, miss, h.short)) if miss and read else oo.ok('reads %s' % sorted(read)))
+
+
+    # HORUS writes the seconds with decimals (58.06) and the reader declares the column as a float: the fraction has to reach the origin time
+    g = P.func('csep.utils.readers.ingv_horus')
+    o = ck.ob('C19-D4.horusfraction', g, 'the decimals of the HORUS seconds reach the origin time', g.node)
+    secs = [x for x in all_nodes(g) if isinstance(x, ast.Subscript) and isinstance(x.ctx, ast.Load) and const_value(x.slice) == 'second']
+    whole = [x for x in secs if isinstance(getattr(x, '_parent', None), ast.Call) and (call_name(x._parent) or '').split('.')[-1] == 'int']
+    other = [x for x in secs if x not in whole and not isinstance(getattr(x, '_parent', None), ast.Compare)
+             and not (isinstance(getattr(x, '_parent', None), ast.AugAssign))]
+    txt = ' '.join(u(s_) for s_ in g.node.body)
+    keeps = bool(other) or 'microsecond' in txt or 'seconds=' in txt
+    (o.ok('the fraction is used') if keeps or not whole else
+     o.fail('the seconds are read as a float and enter the origin time only through `int(...)`: a record written 58.06 s is decoded as 58 s'))
 
 
 RULES = [rule_dispatch, rule_slots, rule_kinds, rule_rollover, rule_rank, rule_records, rule_time_and_order, rule_header, rule_value_width, rule_optional_columns,
